@@ -169,11 +169,11 @@ func TestHarness(t *testing.T) {
 			}
 			if p := progress.Load(); p != last {
 				last, lastChange = p, time.Now()
-			} else if time.Since(lastChange) > 90*time.Second {
+			} else if time.Since(lastChange) > hx.StallLimit(90*time.Second) {
 				ops, _ := currentHistory.Load().([]string)
 				res.Report(hx.Finding{Kind: "violation", Property: prop, History: ops,
 					Name: "C18 monitor: every call returns",
-					What: "the implementation did not reach the end of a step within 90 s of real time (blocked on a lock that is never released)",
+					What: "the implementation did not reach the end of a step within the load-scaled stall limit (at least 240 s of real time) (blocked on a lock that is never released)",
 					Sig:  hx.Sig(prop, "nfsstate", "hang")})
 				res.ModelLines = drv.Lines
 				res.Write(o)
